@@ -34,6 +34,13 @@ Section Dispatch.
     | e :: r => if matches e m then Some (e_ser e) else resolve r m
     end.
 
+  (* the same, returning the position of the chosen entry (used to compare with the real code) *)
+  Fixpoint resolve_idx (es : list entry) (m : Msg) : option nat :=
+    match es with
+    | [] => None
+    | e :: r => if matches e m then Some O else option_map S (resolve_idx r m)
+    end.
+
   (* what the documentation of WithClientSerializers promises instead: exact concrete type first,
      then the first interface entry *)
   Definition resolve_documented (es : list entry) (m : Msg) : option serializer :=
